@@ -538,10 +538,17 @@ def run_cases(cases, tag, timeout=1500, shards=None):
     shards = shards or min(common.NPROC, max(1, len(cases) // 12))
     d = os.path.join(common.COQ, "cases")
     os.makedirs(d, exist_ok=True)
-    # the model must be compiled first
-    ok, log = common.coq_make(["Client/ClientCases.vo"])
-    if not ok:
-        return [], "Client/ClientCases.v does not compile:\n" + log[-3000:]
+    # the model must be compiled first (coq_props has normally just done it)
+    def fresh(v):
+        vo = os.path.join(common.COQ, v[:-2] + ".vo")
+        src = os.path.join(common.COQ, v)
+        return os.path.exists(vo) and os.path.getmtime(vo) >= os.path.getmtime(src)
+    if not (fresh("Client/ClientModel.v") and fresh("Client/ClientCases.v")
+            and os.path.getmtime(os.path.join(common.COQ, "Client/ClientCases.vo"))
+            >= os.path.getmtime(os.path.join(common.COQ, "Client/ClientModel.vo"))):
+        ok, log = common.coq_make(["Client/ClientCases.vo"])
+        if not ok:
+            return [], "Client/ClientCases.v does not compile:\n" + log[-3000:]
     parts = [cases[i::shards] for i in range(shards)]
 
     def one(ix):
